@@ -182,6 +182,56 @@ func c02Run(c *Ctx) {
 				X: map[string]string{"ka": "builtin", "kb": "builtin", "same": fmt.Sprint(a == b)}})
 		}
 	}
+	// 3c. a user function is one value however it is reached: under its own name inside its body, from
+	// outside, through a parameter, an array element, at another recursion depth
+	for _, src := range []string{
+		Lines(Fun("f", "", " "+Ret("f")+" "), Print("f() == f"), Print("f() != f"), Print("f()() == f()"), Var("g", "f"), Print("g() == f"), Print("[f][0] == f()")),
+		Lines(Fun("me", "g", " "+Ret("g == me")+" "), Print("me(me)"), Print("me(nil)"), Fun("other", "g", " "+Ret("g == me")+" "), Print("other(me)"), Print("other(other)")),
+		Lines(Var("tab", "[nil]"), Fun("reg", "", " tab[0] = reg; "+Ret("tab[0] == reg")+" "), Print("reg()"), Print("tab[0] == reg"), Print("tab[0]() == (tab[0] == reg)")),
+		Lines(Var("first", "nil"), Fun("r", "n", " "+If("n == 3", "{ first = r; }")+" "+If("n == 0", "{ "+Ret("first == r")+" }")+" "+Ret("r(n - 1)")+" "), Print("r(3)"), Print("first == r"), Print("first != r")),
+		Lines(Fun("mk", "", " "+Fun("inner", "", " "+Ret("inner")+" ")+" "+Ret("inner")+" "), Var("a", "mk()"), Var("b", "mk()"), Print("a == a()"), Print("a == b"), Print("a() == b()"), Print("a != b")),
+	} {
+		if c.Mine() {
+			c02Judge(c, &Case{Gen: "function-identity", Src: src, X: map[string]string{"op": "=="}})
+		}
+	}
+	// 3d. one operator in the program text evaluated again and again with operands of changing kinds: what
+	// it yields depends on the operands it is given now, not on what it was given before
+	{
+		seqs := map[string][][2]string{
+			"+":  {{`"x"`, "1"}, {"1", "2"}, {"2", `"y"`}, {"2.5", "0.5"}, {`"a"`, `"b"`}, {"3", "4"}},
+			"==": {{"1", "1"}, {`"1"`, `"1"`}, {"nil", "nil"}, {"1", `"x"`}, {"[1]", "[1]"}, {"2", "2"}},
+			"<":  {{"1", "2"}, {"2.5", "0.5"}, {"-1", "0"}, {"1000000", "999999"}, {"0", "0"}},
+			"*":  {{"2", "3"}, {"0.5", "4"}, {"-1", "-1"}, {"1000000", "1000000"}, {"0", "5"}},
+			"-":  {{"5", "3"}, {"0.5", "0.25"}, {"0", "0"}, {"1", "1000000"}},
+			"&":  {{"6", "3"}, {"255", "15"}, {"0", "1"}, {"1048576", "1048576"}},
+		}
+		r := c.Rand("site-history")
+		for op, pairs := range seqs {
+			for rep := 0; rep < c.N(12, 200); rep++ {
+				order := make([]int, len(pairs))
+				for i := range order {
+					order[i] = i
+				}
+				for i := len(order) - 1; i > 0; i-- {
+					j := r.Intn(i + 1)
+					order[i], order[j] = order[j], order[i]
+				}
+				lines := []string{Fun("ap", "a, b", " "+Ret("a "+op+" b")+" "), Var("rows", "[]")}
+				for _, k := range order {
+					lines = append(lines, Print("ap("+pairs[k][0]+", "+pairs[k][1]+")"))
+				}
+				var rows []string
+				for _, k := range order {
+					rows = append(rows, "["+pairs[k][0]+", "+pairs[k][1]+"]")
+				}
+				lines = append(lines, "rows = ["+strings.Join(rows, ", ")+"];", For(Var("i", "0"), "i < "+BI("len", "rows"), "i = i + 1", "{ "+Print("rows[i][0] "+op+" rows[i][1]")+" }"), Print("ap(2, 3) "+op+" ap(2, 3)"))
+				if c.Mine() {
+					c02Judge(c, &Case{Gen: "operator-site-history", Src: Lines(lines...), X: map[string]string{"op": op}})
+				}
+			}
+		}
+	}
 	// 4. random doubles under every arithmetic / comparison operator
 	r := c.Rand("doubles")
 	n := c.N(40000, 8000000)
@@ -485,7 +535,7 @@ func init() {
 		Run:         c02Run,
 		Judge:       c02Judge,
 		MustCount: func(c *Ctx) []string {
-			return []string{"gen:matrix", "gen:string-coercion", "coercion_consistent", "gen:unary-chains", "gen:literal-operands", "gen:tight-spelling", "gen:eqlaws", "gen:randdouble", "gen:randbitwise", "gen:nested", "gen:bigpow", "outcome:fault", "outcome:value", "cli_runs"}
+			return []string{"gen:matrix", "gen:string-coercion", "coercion_consistent", "gen:unary-chains", "gen:literal-operands", "gen:tight-spelling", "gen:function-identity", "gen:operator-site-history", "gen:eqlaws", "gen:randdouble", "gen:randbitwise", "gen:nested", "gen:bigpow", "outcome:fault", "outcome:value", "cli_runs"}
 		},
 	})
 }
